@@ -10,8 +10,10 @@ rm -rf $V; git -C /repo worktree remove --force $R 2>/dev/null; git -C /repo wor
 cp -r "$(dirname "$0")/.." $V
 git -C /repo worktree add -q --detach $R HEAD
 for seed in "$@"; do
-  for d in $V/seeded/C*-m*; do
-    sid=$(basename $d); p=${sid%%-*}
+  for d in $V/seeded/${ROBUST_GLOB:-*-*}; do
+    [ -f "$d/patch.diff" ] || continue
+    sid=$(basename $d)
+    p=$(python3 -c "import json;print(json.load(open('$d/meta.json')).get('property') or '${sid%%-*}')")
     git -C $R apply $d/patch.diff || { echo "$sid seed=$seed apply-failed"; continue; }
     out=$(VERIF_REPO=$R VERIF_SEED=$seed $V/check $p 2>&1); rc=$?
     git -C $R checkout -q -- . ; git -C $R clean -fdq
